@@ -111,7 +111,8 @@ class Params:
         if self.values is None:
             return SymBool(t) if z3.is_bool(t) else SymInt(t)
         if name not in self.values:
-            raise KeyError(f"no concrete value for parameter {name}")
+            # a parameter the counterexample does not constrain (created after the point where the path ended)
+            self.values[name] = False if z3.is_bool(t) else 0
         return self.values[name]
 
     def __getitem__(self, name):
